@@ -417,3 +417,42 @@ func requireFuncs(w *World, r *Report, names ...string) (map[string]*ssa.Functio
 	ReportConstWidth(w, r, shorts...)
 	return out, all
 }
+
+// sliceOffset: the element offset of a (re-)sliced container value relative to the container it was cut from:
+// for c = x[lo:hi] an element c[k] is x[lo+k]. ok=false when the chain cannot be followed.
+func sliceOffset(fa *FA, cont ssa.Value) (Lin, bool) {
+	off := linConst(0)
+	for depth := 0; depth < 8; depth++ {
+		switch x := cont.(type) {
+		case *ssa.Slice:
+			if x.Low != nil {
+				off = off.Add(fa.Lin(x.Low))
+			}
+			cont = x.X
+			continue
+		case *ssa.ChangeType:
+			cont = x.X
+			continue
+		case *ssa.Phi:
+			// a merged view: every edge must carry the same offset
+			var first Lin
+			for i, e := range x.Edges {
+				o, ok := sliceOffset(fa, e)
+				if !ok {
+					return Lin{}, false
+				}
+				if i == 0 {
+					first = o
+				} else if !first.Eq(o) {
+					return Lin{}, false
+				}
+			}
+			if first.T == nil {
+				return off, true
+			}
+			return off.Add(first), true
+		}
+		return off, true
+	}
+	return Lin{}, false
+}
